@@ -11,7 +11,7 @@ DISTINCT_RULE = (
     "matching (aggressive multi-level, passive, SP, reduced after removals) or full-match twins; distinct = (market type, runner result, order type, side, "
     "dead-heat k, #fragments<=3) cells compared with the first-principles settlement calculator"
 )
-RULES = ["order-profit", "avg-price", "twin", "cleared-market", "paper-cleared-market", "paper-order-profit", "reduced-fill"]
+RULES = ["order-profit", "avg-price", "twin", "cleared-market", "paper-cleared-market", "paper-order-profit", "reduced-fill", "book-current"]
 MINIMA = {"quick": {"rule_order-profit": 4000, "rule_twin": 300, "rule_cleared-market": 1000, "rule_paper-cleared-market": 200, "paper_polls_with_two_markets": 100}, "thorough": {"rule_order-profit": 150000}}
 ASSUMPTIONS = [
     "settlement rules as stated in the property (win/lose, removed = 0, one-winner dead heat, each-way terms, even-money lines)",
@@ -230,7 +230,21 @@ def run_paper(desc):
                     o = livecases.make_order(st, mid, sel=key[0], handicap=key[1], side=side, price=pr, size=rng.choice((2.0, 5.0, 12.5)), persistence=rng.choice(("PERSIST", "LAPSE")))
                     w.market(mid).place_order(o, client=w.clients[ci])
                     orders.append((o, mid, ci))
+                    if rng.random() < 0.35:
+                        # while the placement sleeps its latency on the pool thread the main loop processes the market's next update
+                        # (possibly the closing one, settlement included)
+                        def during_sleep(secs, mid=mid):
+                            mb_ = w.next_book(mid)
+                            if mb_ is None:
+                                if mid in open_mids:
+                                    open_mids.remove(mid)
+                                return
+                            lines_read[mid] += 1
+                            drain()
+
+                        w.on_sleep = during_sleep
                     w.executor.run_all()
+                    w.on_sleep = None
             for _ in range(rng.choice((0, 1, 1, 2))):
                 poll()
         poll()
@@ -269,6 +283,7 @@ def run_paper(desc):
                     out.v("cleared-summary-differs", {"field": "profit/bet_count", "paper": True}, market=mid, client=ci, payload=pl, expected_profit=ep, expected_count=len(exp.get((mid, ci), [])))
                 if abs(pl["commission"] - ec) > 0.0051 or pl["commission"] < 0:
                     out.v("cleared-summary-differs", {"field": "commission", "paper": True}, market=mid, client=ci, payload=pl, expected=ec)
+        O.book_at_arrival_is_current(tr, out, {"paper": True})
         out.c("paper_orders", len(orders))
         out.c("paper_matched_orders", sum(1 for o, _, _ in orders if o.size_matched > 0))
     finally:
